@@ -4,12 +4,14 @@ import (
 	"flag"
 	"fmt"
 	"os"
+	"sort"
 	"strings"
 	"time"
 )
 
 var defaultPatterns = []string{"./pkg/bitio", "./pkg/ranges", "./internal/bitiox", "./internal/mathx", "./pkg/decode", "./pkg/interp",
-	"./internal/aheadreadseeker", "./internal/progressreadseeker", "./format/inet/flowsdecoder", "./internal/hexpairwriter", "./internal/asciiwriter"}
+	"./internal/aheadreadseeker", "./internal/progressreadseeker", "./format/inet/flowsdecoder", "./internal/hexpairwriter", "./internal/asciiwriter",
+	"./internal/gojqx", "./format/toml", "./format/xml", "./format/yaml", "./format/csv", "./format/crypto"}
 
 func Main(args []string) int {
 	if len(args) == 0 {
@@ -25,9 +27,38 @@ func Main(args []string) int {
 		return cmdReplay(args[1:])
 	case "ssa":
 		return cmdSSA(args[1:])
+	case "funcs":
+		return cmdFuncs(args[1:])
 	}
 	fmt.Fprintln(os.Stderr, "unknown command", args[0])
 	return 2
+}
+
+// cmdFuncs lists ssa function names containing the given substrings (developer aid).
+func cmdFuncs(args []string) int {
+	fs := flag.NewFlagSet("funcs", flag.ExitOnError)
+	repo := fs.String("repo", "/repo", "")
+	pk := fs.String("pkg", strings.Join(defaultPatterns, ","), "")
+	fs.Parse(args)
+	e, err := Load(*repo, strings.Split(*pk, ","), nil)
+	if err != nil {
+		fmt.Fprintln(os.Stderr, err)
+		return 2
+	}
+	e.funcByString("")
+	var names []string
+	for n := range funcIndex {
+		for _, a := range fs.Args() {
+			if strings.Contains(n, a) {
+				names = append(names, n)
+			}
+		}
+	}
+	sort.Strings(names)
+	for _, n := range names {
+		fmt.Println(n, len(funcIndex[n].Blocks))
+	}
+	return 0
 }
 
 func cmdSSA(args []string) int {
